@@ -13,7 +13,7 @@ import Pixman.Lemmas.DrawFrame
   * fills: C19's word memory (`Model.Fill.Mem`), `m.bit i`, pixel index `pixIdx`;
   * trapezoids rasterised directly: C12's pixel-array image `Trap.Img`.
 
-  What the models cover and what they do not:
+  What the models cover and what they do not (the `_partial` in the headline):
   * `generalCompositeMem` is the GENERAL path: `pixman_image_composite32` → box loop →
     `general_composite_rect` whose destination iterator writes each combined row back through the
     format's `store_scanline` (any per-row combiner, any operator, any source/mask kind).  The
@@ -25,9 +25,9 @@ import Pixman.Lemmas.DrawFrame
     store into the alpha image).  Wide (float) write-back through `store_scanline_generic_float`
     (C10: contract, then the 32-bit store) is the instance `comb = contract ∘ …` of the row combiner;
     the formats with their own float stores (10-bit, sRGB: not `MAKE_ACCESSORS` formats) are outside.
-  * trapezoids: unconditional (C04's S8) on C12's pixel array, carried to bytes by `realize` (each
-    array-cell update = one C10 pixel store); the word-mask row bodies of a1 are abstracted by C12's
-    model to per-pixel updates (see `trapezoid_bytes_frame`).
+  * trapezoids: `Trap.Img` is an array of pixel values — the a1/a4 read-modify-write of
+    pixman-edge-imp.h on memory words is not tied to a byte memory, and the theorem holds in C12's
+    exact region; unconditional row/column containment is C04's S8 (Lemmas/TrapBounds, in progress).
 -/
 namespace Pixman.Props.C03Frame
 open Pixman.DrawFrame Pixman.Model.Format Pixman.Lemmas.FormatMem
@@ -168,68 +168,16 @@ theorem glyphs_mask_frame (r : Rec) (hr : r ∈ formats) (ha : r.acc = 1) (img :
     bitAt (glyphsMaskMem img comb src dest sx sy dx dy w h m) k = bitAt m k :=
   (composite_frame r hr ha img hf comb H hfit m hb).2.1 k hk
 
-open Pixman.Trap Pixman.Lemmas.TrapRows TrapFrame in
-/-- **trapezoid_frame** — rasterising into an a1/a4/a8 image (C12's model of `pixman_rasterize_trapezoid`,
-    `pixman_add_trapezoids`, `pixman_add_traps`, `pixman_add_triangles`; containment from C04's S8):
-    for EVERY shape list, offsets, depth and edge state — no exactness or no-overflow hypothesis — the image
-    keeps its dimensions, the number and length of its rows, the flag `oob` (nothing outside the pixel rows
-    is accessed) and `runaway`; rows outside the clamped sample-row range of the shapes
-    (`pixman_fixed_to_int (t) … pixman_fixed_to_int (b)` of each `pixman_rasterize_edges` call) are untouched. -/
-theorem trapezoid_frame (n : Nat) (hn : Depth n) (img : Img) (hsz : img.rows.size = img.height) :
-    (∀ (tr : Trapezoid) (xOff yOff : Int),
-      FrameP img (rasterizeTrapezoid n img tr xOff yOff) (SetupRows (trapezoidSetup n img.height tr xOff yOff))) ∧
-    (∀ (traps : List Trapezoid) (xOff yOff : Int),
-      FrameP img (addTrapezoids n img xOff yOff traps)
-        (fun k => ∃ tr ∈ traps, tr.valid = true ∧ SetupRows (trapezoidSetup n img.height tr (wrap16 xOff) yOff) k)) ∧
-    (∀ (traps : List Trap) (xOff yOff : Int),
-      FrameP img (addTraps n img xOff yOff traps)
-        (fun k => ∃ tr ∈ traps, SetupRows (trapSetup n img.height (intToFixed (wrap16 xOff)) (intToFixed (wrap16 yOff)) tr) k)) ∧
-    (∀ (tris : List Triangle) (xOff yOff : Int),
-      FrameP img (addTriangles n img xOff yOff tris)
-        (fun k => ∃ tr ∈ (tris.flatMap fun t => [(triangleToTrapezoids t).1, (triangleToTrapezoids t).2]),
-          tr.valid = true ∧ SetupRows (trapezoidSetup n img.height tr (wrap16 xOff) yOff) k)) :=
-  ⟨fun tr xo yo => rasterizeTrapezoid_rows n hn img hsz tr xo yo,
-   fun traps xo yo => addTrapezoids_rows n hn img hsz xo yo traps,
-   fun traps xo yo => addTraps_rows n hn img hsz xo yo traps,
-   fun tris xo yo => addTriangles_rows n hn img hsz xo yo tris⟩
-
-open Pixman.Trap Pixman.Lemmas.TrapRows Pixman.Lemmas.TrapShape TrapFrame in
-/-- **trapezoid_bytes_frame** — the same about destination BYTES.  `out` is any result with
-    `FrameP img out P` (each of the four entry points, by `trapezoid_frame`); the a1/a4/a8 image lives in
-    C10's byte memory at `fimg` (`Holds`: pixel `(c, r)` read with the format's fetch is cell `(r, c)`);
-    `realize` performs every array-cell update as ONE C10 pixel store (`storeRaw`).  Then:
-    (1) a pixel that differs lies in `[0,width) × [0,height)` and in a row of `P`;
-    (2) the memory after the stores holds `out`;
-    (3) every memory bit that belongs to no pixel `(x, y)` with `x < width`, `y < height`, `P y` is unchanged —
-    the neighbouring a4 nibble, the other bits of an a1 word, row padding, other rows, everything else.
-    Modelling note: C12's model abstracts the row bodies of pixman-edge-imp.h / pixman-edge.c (a1: word masks
-    `LEFT_MASK/RIGHT_MASK`; a4: `STORE_4`-style nibble update; a8: byte add-saturate / memset) to per-pixel
-    value updates, compared with the library pixel by pixel by C12's harness; `realize` is that abstraction
-    carried to bytes. -/
-theorem trapezoid_bytes_frame (n : Nat) (hn : Depth n) (img out : Img) (P : Nat → Prop) (F : FrameP img out P)
-    (hs : Shaped img) (fimg : FImage) (hfit : Fits fimg n img.width) (m : Mem) (hb : m.Bytes) :
-    (∀ r c, px out.rows r c ≠ px img.rows r c → c < img.width ∧ r < img.height ∧ P r) ∧
-    ((∀ r c, px out.rows r c < 2 ^ n) → Holds fimg n m img → Holds fimg n (realize fimg n img out m) out) ∧
-    (realize fimg n img out m).Bytes ∧
-    ∀ k, (∀ x y : Nat, x < img.width → y < img.height → P y → ¬ InPixel fimg n x y k) →
-      bitAt (realize fimg n img out m) k = bitAt m k := by
-  have hbpp : Bpp n := by
-    rcases hn with h | h | h <;> subst h
-    · exact Or.inl rfl
-    · exact Or.inr (Or.inl rfl)
-    · exact Or.inr (Or.inr (Or.inl rfl))
-  have W := realize_within hbpp fimg img out hfit m hb
-  refine ⟨fun r c hne => F.pixels hs r c hne, fun hv hm => realize_holds hbpp fimg img out hfit hv F.width F.height m hb hm,
-    W.bytes, fun k hk => ?_⟩
-  apply within_bits hbpp hb W (fun x y hc => inRow_of_fits hbpp hfit (by have := hc.1; omega)) k
-  intro x y hc
-  exact hk x y hc.1 hc.2.1 (F.pixels hs y x hc.2.2).2.2
-
 open Pixman.Trap Pixman.Gen.SampleGrid Pixman.Spec.SampleGrid in
 open Pixman.Lemmas.Trap Pixman.Lemmas.TrapRows Pixman.Lemmas.TrapShape Pixman.Lemmas.TrapSetup Pixman.Lemmas.TrapTri in
-/-- finer in the columns, inside C12's exact region (the hypotheses of `rasterizeTrapezoid_eq_addShape`):
-    every pixel without a grid sample inside the trapezoid keeps its value -/
-theorem trapezoid_frame_exact_region (n : Nat) (hn : Depth n) (img : Img) (hwf : ImgWF n img)
+/-- **trapezoid_frame_partial** — `pixman_rasterize_trapezoid` into an a1/a4/a8 image (C12's model):
+    dimensions and the out-of-rows flag `oob` are unchanged (no access outside the pixel rows) and
+    every pixel without a grid sample inside the trapezoid keeps its value.
+    PARTIAL: (i) inside C12's exact region (the hypotheses of `rasterizeTrapezoid_eq_addShape`);
+    outside it containment is C04's S8; (ii) pixel-array model: the a1/a4 word read-modify-write
+    is not tied to byte memory.  `pixman_composite_trapezoids` / `pixman_composite_triangles` with a
+    temporary mask write the destination by one composite request: `trapezoids_mask_frame`. -/
+theorem trapezoid_frame_partial (n : Nat) (hn : Depth n) (img : Img) (hwf : ImgWF n img)
     (hh : img.height ≤ 32767) (tr : Trapezoid) (hv : tr.valid = true)
     (htop : InI32 tr.top) (hbot : InI32 tr.bottom)
     (hc : InI32 tr.left.p1.x ∧ InI32 tr.left.p1.y ∧ InI32 tr.left.p2.x ∧ InI32 tr.left.p2.y ∧
@@ -254,20 +202,16 @@ theorem trapezoids_mask_frame (r : Rec) (hr : r ∈ formats) (ha : r.acc = 1) (i
     bitAt (generalCompositeMem img comb src (some tmp) dest sx sy 0 0 bx by' w h m) k = bitAt m k :=
   (composite_frame r hr ha img hf comb H hfit m hb).2.1 k hk
 
-/-- **drawing_touches_only_region** — the four kinds of drawing request of the property (composite, fill,
-    glyphs, trapezoids), each as a statement about destination memory at model level: nothing outside the
-    pixels of the region changes, neighbouring sub-byte pixels and row padding included.
-    CAVEAT (not a gap of the proofs, a boundary of the models): the bodies of the fast-path and SIMD
-    COMPOSITE functions (pixman-fast-path.c, pixman-mmx.c, pixman-sse2.c, pixman-ssse3.c) and the formats
-    with their own float stores are outside every model; for them the frame is the canary-oracle result of
-    harness/frame.c under each implementation chain.  `generalCompositeMem` is tied to the library byte for
-    byte by the `drawframe` correspondence domain (general path only).  Trapezoid row bodies: see the
-    modelling note at `trapezoid_bytes_frame`. -/
-theorem drawing_touches_only_region :
-    type_of% @composite_frame ∧ type_of% @composite_alpha_frame ∧ type_of% @fill_frame ∧
-    type_of% @FillFrame.fillRectangles_frame ∧ type_of% @glyphs_frame ∧ type_of% @glyphs_mask_frame ∧
-    type_of% @trapezoid_frame ∧ type_of% @trapezoid_bytes_frame ∧ type_of% @trapezoids_mask_frame :=
-  ⟨@composite_frame, @composite_alpha_frame, @fill_frame, @FillFrame.fillRectangles_frame, @glyphs_frame,
-   @glyphs_mask_frame, @trapezoid_frame, @trapezoid_bytes_frame, @trapezoids_mask_frame⟩
+/-- **drawing_touches_only_region_partial** — the four kinds of drawing request of the property
+    (composite, fill, glyphs, trapezoids) at model level.  Partial: see the list at the head of the
+    file — fast-path / SIMD composite bodies and the formats with their own float stores are
+    outside the models (canary oracle only); direct trapezoid rasterisation holds in C12's exact
+    region on the pixel-array model. -/
+theorem drawing_touches_only_region_partial :
+    type_of% @composite_frame ∧ type_of% @composite_alpha_frame ∧ type_of% @fill_frame ∧ type_of% @FillFrame.fillRectangles_frame ∧
+    type_of% @glyphs_frame ∧ type_of% @glyphs_mask_frame ∧
+    type_of% @trapezoid_frame_partial ∧ type_of% @trapezoids_mask_frame :=
+  ⟨@composite_frame, @composite_alpha_frame, @fill_frame, @FillFrame.fillRectangles_frame, @glyphs_frame, @glyphs_mask_frame,
+   @trapezoid_frame_partial, @trapezoids_mask_frame⟩
 
 end Pixman.Props.C03Frame
